@@ -88,12 +88,15 @@ type verifRef struct {
 func VerifC25_Blocklist() {
 	steps := zzverif.Param("steps", 3, 5)
 	zzverif.Unwind(64)
+	// the clock is harness state: it advances by an arbitrary amount before every
+	// operation and timeNow() reads it (so the instant of a request does not
+	// depend on whether the code under test looks at the clock)
 	var now int64
-	timeNow = func() time.Time {
+	timeNow = func() time.Time { return time.Unix(0, 0).Add(time.Duration(now)) }
+	advance := func() {
 		t := zzverif.I64("now")
 		zzverif.Assume(t >= now && t < 1<<60)
 		now = t
-		return time.Unix(0, 0).Add(time.Duration(t))
 	}
 	st := &verifStore{}
 	bl := NewBlocklist(st)
@@ -103,16 +106,14 @@ func VerifC25_Blocklist() {
 	for s := 0; s < steps; s++ {
 		p := zzverif.Choose("peer", 2)
 		r := &ref[p]
+		advance()
+		t := now
 		switch zzverif.Choose("op", 3) {
 		case 0: // Add
 			d := zzverif.I64("dur")
 			zzverif.Assume(d >= 0 && d < 1<<59)
-			before := now
 			err := bl.Add(peers[p], time.Duration(d))
 			zzverif.Assert(err == nil, "Add succeeds")
-			t := now // clock value read inside Add
-			zzverif.Assert(t >= before, "clock monotone")
-			oldEnd, oldActive, oldForever := r.end, r.active, r.forever
 			r.active = true
 			if d == 0 {
 				r.forever = true
@@ -124,18 +125,14 @@ func VerifC25_Blocklist() {
 				r.end = t + d
 			}
 			r.lastReq = t
-			// an Add never moves the block end earlier: checked by querying right before the old end
-			_ = oldEnd
-			_ = oldActive
-			_ = oldForever
 		case 1: // Remove
 			err := bl.Remove(peers[p])
 			zzverif.Assert(err == nil, "Remove succeeds")
 			*r = verifRef{}
-		case 2: // Exists (query)
+		case 2: // Exists (query) and listing at the same instant
 			ex, err := bl.Exists(peers[p])
 			zzverif.Assert(err == nil, "Exists succeeds")
-			t := now
+			zzverif.Observe("exists", ex)
 			if !r.active {
 				zzverif.Assert(!ex, "not blocked without request since removal")
 			} else {
@@ -149,9 +146,6 @@ func VerifC25_Blocklist() {
 					zzverif.Assert(!ex, "never blocked beyond latest request + longest duration")
 				}
 			}
-			// listing agrees with the per-peer answer at the same instant
-			frozen := now
-			timeNow = func() time.Time { return time.Unix(0, 0).Add(time.Duration(frozen)) }
 			ex2, _ := bl.Exists(peers[p])
 			list, lerr := bl.Peers()
 			zzverif.Assert(lerr == nil, "Peers succeeds")
@@ -162,12 +156,6 @@ func VerifC25_Blocklist() {
 				}
 			}
 			zzverif.Assert(in == ex2, "listing agrees with Exists")
-			timeNow = func() time.Time {
-				t := zzverif.I64("now")
-				zzverif.Assume(t >= now && t < 1<<60)
-				now = t
-				return time.Unix(0, 0).Add(time.Duration(t))
-			}
 		}
 	}
 	zzverif.Reach("C25")
